@@ -102,6 +102,20 @@ func propFunctions(cf *ContractFile, prop string) []string {
 				}
 			}
 		}
+		if fc.Depth != nil {
+			for _, p := range fc.Depth.Props {
+				if p == prop {
+					hit = true
+				}
+			}
+		}
+		for _, ac := range fc.AtCalls {
+			for _, p := range ac.Clause.Props {
+				if p == prop {
+					hit = true
+				}
+			}
+		}
 		for _, lc := range fc.Loops {
 			for _, c := range append(append([]*Clause{}, lc.Invariants...), lc.Decreases...) {
 				for _, p := range c.Props {
@@ -212,7 +226,7 @@ func (cc *checkCtx) run(writeBaseline bool) int {
 			}
 		}
 	}
-	if cc.prop == "C12" || cc.prop == "C17" || cc.prop == "C14" {
+	if cc.prop == "C12" || cc.prop == "C17" || cc.prop == "C14" || cc.prop == "C04" || cc.prop == "C02" {
 		rep := m.packageScan()
 		var keep []*Obligation
 		for _, o := range rep.Obligs {
